@@ -31,12 +31,45 @@ import (
 // as delivered when the result of every payload of it is in CheckUpkeeps' return value exactly once
 // (a result returned twice lists the batch twice).
 //
-// Only the modes without Stop/cancel before the verdict are used here (none, stop-after,
-// cancel-after): the runner's API does not expose per-batch error results.
+// Close()/cancel DURING a call (modes stop, cancel, both; after k yields): pipeline calls in flight
+// obey the context they are given (they return only when it ends, or hold, or yield); every caller
+// must return.  A batch whose pipeline call failed is delivered to the runner's aggregate function as
+// an error result; the runner's API does not expose these, but the runner logs each of them
+// ("error received from worker result: <err>"): the harness gives the runner a logger of its own and
+// reads the batch identity out of its own error text (`c14fail:<caller>:<batch>`); an error result
+// without it (the worker skipped the call because the service context was cancelled) counts as `anon`.
 
 const c14BatchLimit = 10 // runner.WorkerBatchLimit (v3) / workerBatchLimit (v2)
 
-var c14Logger = log.New(io.Discard, "", 0)
+var _ = io.Discard
+
+const c14FailTag = "c14fail:"
+
+// c14LogSink collects the runner's log lines about error results
+type c14LogSink struct {
+	mu     sync.Mutex
+	failed [][2]int // (caller, batch) of identified error results, one entry per log line
+	anon   int      // error results without batch identity
+}
+
+func (l *c14LogSink) Write(b []byte) (int, error) {
+	line := string(b)
+	if strings.Contains(line, "error received from worker result") {
+		l.mu.Lock()
+		if k := strings.Index(line, c14FailTag); k >= 0 {
+			var c, bt int
+			if n, _ := fmt.Sscanf(line[k+len(c14FailTag):], "%d:%d", &c, &bt); n == 2 {
+				l.failed = append(l.failed, [2]int{c, bt})
+			} else {
+				l.anon++
+			}
+		} else {
+			l.anon++
+		}
+		l.mu.Unlock()
+	}
+	return len(b), nil
+}
 
 // payload idx of caller c <-> identifier
 func c14PayloadID(c, idx int) string { return fmt.Sprintf("c%d-p%d", c, idx) }
@@ -81,7 +114,7 @@ func (p *c14Pipeline) takeHolders() []chan struct{} {
 }
 
 // run is one call of the check pipeline for a batch of payload ids
-func (p *c14Pipeline) run(ctx context.Context, ids []string) {
+func (p *c14Pipeline) run(ctx context.Context, ids []string) error {
 	cur := p.conc.Add(1)
 	for {
 		m := p.maxConc.Load()
@@ -97,22 +130,28 @@ func (p *c14Pipeline) run(ctx context.Context, ids []string) {
 			p.mu.Lock()
 			p.problems = append(p.problems, "pipeline called with a mixed or foreign batch: "+strings.Join(ids, ","))
 			p.mu.Unlock()
-			return
+			return nil
 		}
 		if i == 0 {
 			caller, first = c, idx
 		}
 	}
 	if caller < 0 || caller >= len(p.started) {
-		return
+		return nil
 	}
 	batch := first / c14BatchLimit
 	p.mu.Lock()
 	p.started[caller] = append(p.started[caller], batch)
 	p.mu.Unlock()
-	yields, _, hold := c14Blocking(p.in, caller, batch)
+	yields, block, hold := c14Blocking(p.in, caller, batch)
 	for y := 0; y < yields; y++ {
 		runtime.Gosched()
+	}
+	fail := func() error { return fmt.Errorf("%s%d:%d (%w)", c14FailTag, caller, batch, ctx.Err()) }
+	if block {
+		// an RPC without answer: comes back only when the context it was given ends
+		<-ctx.Done()
+		return fail()
 	}
 	if hold {
 		ch := make(chan struct{})
@@ -122,8 +161,10 @@ func (p *c14Pipeline) run(ctx context.Context, ids []string) {
 		select {
 		case <-ch:
 		case <-ctx.Done():
+			return fail()
 		}
 	}
+	return nil
 }
 
 // v3 Runnable
@@ -132,7 +173,9 @@ func (p *c14Pipeline) CheckUpkeeps(ctx context.Context, ps ...ocr2keepers.Upkeep
 	for i, x := range ps {
 		ids[i] = x.WorkID
 	}
-	p.run(ctx, ids)
+	if err := p.run(ctx, ids); err != nil {
+		return nil, err
+	}
 	out := make([]ocr2keepers.CheckResult, len(ps))
 	for i, x := range ps {
 		out[i] = ocr2keepers.CheckResult{WorkID: x.WorkID, UpkeepID: x.UpkeepID, Trigger: x.Trigger, Eligible: true}
@@ -148,7 +191,9 @@ func (r c14V2) CheckUpkeep(ctx context.Context, _ bool, keys ...ocr2keepersv2.Up
 	for i, k := range keys {
 		ids[i] = string(k)
 	}
-	r.p.run(ctx, ids)
+	if err := r.p.run(ctx, ids); err != nil {
+		return nil, err
+	}
 	out := make([]ocr2keepersv2.UpkeepResult, len(keys))
 	for i, k := range keys {
 		out[i] = string(k)
@@ -168,6 +213,8 @@ func (c14V2) SplitUpkeepKey(k ocr2keepersv2.UpkeepKey) (ocr2keepersv2.BlockKey, 
 func c14RunRunner(t *testing.T, in c14Input, verdict func(c14Impl)) (impl c14Impl) {
 	n := len(in.Jobs)
 	pipe := &c14Pipeline{in: in, started: make([][]int, n)}
+	sink := &c14LogSink{}
+	logger := log.New(sink, "", 0)
 	type callerState struct {
 		returned atomic.Bool
 		ids      []string // work ids / keys in the return value
@@ -188,7 +235,7 @@ func c14RunRunner(t *testing.T, in c14Input, verdict func(c14Impl)) (impl c14Imp
 			cc := c14Caller{Returned: c.returned.Load(), Delivered: []int{}, Started: append([]int{}, pipe.started[i]...),
 				DeliveredAtReturn: -1, Panicked: []int{}, ErrDelivered: []int{}}
 			if cc.Returned {
-				if c.err != "" {
+				if c.err != "" && !c14WillRelease(in.Mode) {
 					out.Panic = "CheckUpkeeps returned an error: " + c.err
 				}
 				// payload results -> batches: a batch is delivered when all of its payloads came back
@@ -223,6 +270,17 @@ func c14RunRunner(t *testing.T, in c14Input, verdict func(c14Impl)) (impl c14Imp
 						}
 					}
 				}
+				// error results the aggregate function received (one log line each)
+				sink.mu.Lock()
+				for _, f := range sink.failed {
+					if f[0] == i {
+						cc.Delivered = append(cc.Delivered, f[1])
+					}
+				}
+				if i == 0 {
+					cc.Anon += sink.anon // identity unknown: attributed to the first caller (totals only)
+				}
+				sink.mu.Unlock()
 				cc.DeliveredAtReturn = len(cc.Delivered) + cc.Anon
 			}
 			out.Callers = append(out.Callers, cc)
@@ -248,7 +306,7 @@ func c14RunRunner(t *testing.T, in c14Input, verdict func(c14Impl)) (impl c14Imp
 		var closeRunner func()
 		switch in.Via {
 		case "runner-v2":
-			r, err := runnerv2.NewRunner(c14Logger, c14V2{pipe}, c14V2{pipe}, in.Workers, in.Queue, 20*time.Minute, 30*time.Second)
+			r, err := runnerv2.NewRunner(logger, c14V2{pipe}, c14V2{pipe}, in.Workers, in.Queue, 20*time.Minute, 30*time.Second)
 			if err != nil {
 				impl.Panic = "NewRunner: " + err.Error()
 				return
@@ -270,7 +328,7 @@ func c14RunRunner(t *testing.T, in c14Input, verdict func(c14Impl)) (impl c14Imp
 				return ids, err
 			}
 		default:
-			r, err := runnerv3.NewRunner(c14Logger, pipe, runnerv3.RunnerConfig{Workers: in.Workers, WorkerQueueLength: in.Queue,
+			r, err := runnerv3.NewRunner(logger, pipe, runnerv3.RunnerConfig{Workers: in.Workers, WorkerQueueLength: in.Queue,
 				CacheExpire: 20 * time.Minute, CacheClean: 30 * time.Second})
 			if err != nil {
 				impl.Panic = "NewRunner: " + err.Error()
@@ -314,6 +372,23 @@ func c14RunRunner(t *testing.T, in c14Input, verdict func(c14Impl)) (impl c14Imp
 					cs[i].err = err.Error()
 				}
 				cs[i].returned.Store(true)
+			}()
+		}
+		if in.Mode == "stop" || in.Mode == "cancel" || in.Mode == "both" {
+			go func() {
+				for y := 0; y < in.K; y++ {
+					runtime.Gosched()
+				}
+				if in.Mode == "cancel" || in.Mode == "both" {
+					go func() {
+						for _, c := range cancels {
+							c()
+						}
+					}()
+				}
+				if in.Mode == "stop" || in.Mode == "both" {
+					closeRunner()
+				}
 			}()
 		}
 		for {
